@@ -2,8 +2,8 @@
    canon q = the exact text of Inquiry.to_json_sorted() (checked character by character against the
    implementation); content_eq = equal after sorting dictionary entries by key at every depth (norm).
    inq_eq / inq_hash = Inquiry.__eq__ / __hash__ (the hash value itself is compared with CPython's). *)
-From Coq Require Import ZArith NArith List Bool Permutation.
-From Vakt Require Import Base.PyMonad Base.PyVal Model.Rules Model.Inquiry Proofs.PyValP Proofs.InquiryP.
+From Coq Require Import ZArith NArith List Bool Permutation Lia.
+From Vakt Require Import Base.PyMonad Base.PyVal Model.Rules Model.Inquiry Proofs.PyValP Proofs.InquiryP Model.JsonParse Proofs.JsonParseP.
 Import ListNotations.
 
 (* same content => equal, same hash, same canonical text *)
@@ -65,6 +65,24 @@ Theorem C13_only_if_refuted : exists a b, inq_eq a b = true /\ inq_hash a = inq_
 Proof. exact reserved_key_collision. Qed.
 Print Assumptions C13_only_if_refuted.
 
+(* ... and it HOLDS on the rest of the universe: values without floats, without surrogate code points in strings and
+   without jsonpickle-reserved dictionary keys (inq_wf).  There the canonical text determines the content - a decoder
+   (Model/JsonParse.v) inverts the printer - so two inquiries are equal exactly when their content is the same, and
+   decoding the canonical text gives the normalised content back (the JSON round trip). *)
+Theorem C13_text_determines_content : forall a b, jwf a -> jwf b -> print a = print b -> a = b.
+Proof. exact print_injective. Qed.
+Print Assumptions C13_text_determines_content.
+
+Theorem C13_equal_iff_same_content : forall a b, inq_wf a -> inq_wf b ->
+  (inq_eq a b = true <-> inq_content_eq a b).
+Proof. exact equal_iff_same_content. Qed.
+Print Assumptions C13_equal_iff_same_content.
+
+Theorem C13_round_trip : forall q, inq_wf q ->
+  exists fuel, parse_val fuel (canon q) = Some (norm (inq_val q), []).
+Proof. exact decode_canon. Qed.
+Print Assumptions C13_round_trip.
+
 (* non-vacuity: key order at two depths; a one-point mutation is unequal *)
 Definition qa : inquiry :=
   mk_inquiry (VDict [([97%N], VInt 1); ([98%N], VDict [([120%N], VInt 1); ([121%N], VList [VInt 2])])]) VNone (VStr [77%N]) VNone.
@@ -72,6 +90,13 @@ Definition qb : inquiry :=
   mk_inquiry (VDict [([98%N], VDict [([121%N], VList [VInt 2]); ([120%N], VInt 1)]); ([97%N], VInt 1)]) (VStr []) (VStr [77%N]) (VDict []).
 Definition qc : inquiry :=
   mk_inquiry (VDict [([98%N], VDict [([121%N], VList [VInt 3]); ([120%N], VInt 1)]); ([97%N], VInt 1)]) (VStr []) (VStr [77%N]) (VDict []).
+Example C13_domain_nonvacuous : inq_wf qa /\ inq_wf qb /\ inq_wf qc /\ decode (canon qa) = Some (norm (inq_val qa)).
+Proof.
+  unfold inq_wf, qa, qb, qc, mk_inquiry, or_default. cbn.
+  repeat match goal with |- _ /\ _ => split end; try exact I; try reflexivity;
+    try (unfold JsonStrP.valid_str; repeat constructor; unfold JsonStrP.valid_cp; lia).
+Qed.
+
 Example C13_nonvacuous :
   inq_eq qa qb = true /\ inq_hash qa = inq_hash qb /\ inq_eq qa qc = false /\ inq_content_eq qa qb.
 Proof. unfold inq_content_eq, content_eq. repeat match goal with |- _ /\ _ => split end; vm_compute; reflexivity. Qed.
